@@ -116,7 +116,7 @@ func benignControls(e *Env, prop string, spec *Spec) {
 						sub.Unknown("core", "checker-panic", "", fmt.Sprint(x))
 					}
 				}()
-				RunSpec(NewEnvFor(sub, tmp, "linux", "amd64"), prop, spec)
+				RunAll(NewEnvFor(sub, tmp, "linux", "amd64"), prop, spec, nil)
 			}()
 			nRun++
 			name := filepath.Base(filepath.Dir(patch)) + "/" + filepath.Base(patch)
@@ -205,7 +205,7 @@ func controls(e *Env, prop string, spec *Spec) {
 						sub.Unknown("core", "checker-panic", "", fmt.Sprint(x))
 					}
 				}()
-				RunSpec(NewEnvFor(sub, tmp, "linux", "amd64"), prop, spec)
+				RunAll(NewEnvFor(sub, tmp, "linux", "amd64"), prop, spec, nil)
 			}()
 			nRun++
 			failed, first := sub.Failed()
